@@ -10,19 +10,25 @@ namespace ClockBound.Rs
 
 /-! ### equations of the recursive functions (they fire on constructors only) -/
 rs_register_eqns eval evalList evalBlock evalArms evalFields callDecl
-rs_register_eqns matchPat matchPat.matchPats bindParams readPlace writePlace findLet
-rs_register_eqns canon constKey lastSeg lastTwo envGet envSet insertField sortFields listGet lookupFn localVar
-  ascribeFields
+rs_register_loop_eqns evalWhile evalFor
+rs_register_eqns matchPat matchPat.matchPats matchPat.matchFields bindParams readPlace writePlace findLet findWhile
+rs_register_eqns canon constKey lastSeg lastTwo envGet envSet insertField sortFields listGet listSet lookupFn localVar
+  ascribeFields updateFields enumOfVariant discrOf sizeOf intConvAt
 
 /-! ### the dictionary: equations that fire on constructors / literals only -/
-rs_register_eqns IntTy.ofName IntTy.name IntTy.lo IntTy.hi IntTy.signed IntTy.unify
-  litValue ascribe fieldOf setField binOp unOp castTo intBin f64Bin timespecBin durationBin
-  primPath primCall primMethod primMacro userTypeName typeName chronyOfValue rangeEnd callKeys
-  Res.outcome statusName chronyName
+rs_register_eqns IntTy.ofName IntTy.name IntTy.lo IntTy.hi IntTy.signed IntTy.unify IntTy.bits IntTy.toUnsigned
+  litValue ascribe fieldOf setField binOp unOp primCast intBin f64Bin timespecBin durationBin
+  primPath primCall primMethod primMethod2 intMethod closureMethod primMacro userTypeName typeName chronyOfValue
+  rangeEnd callKeys methodDecl Res.outcome statusName chronyName adoptTy iterItems intConvCall runUnary wrapWith
 
-/-! ### small non-recursive definitions, unfolded -/
-attribute [rs_eval] run evalIn defaultFuel Res.popTo St.popTo IntTy.card
-  chkInt wrapInt boolRes enumArity mkStruct List.lookup statusValue chronyValue
+/-! ### small non-recursive definitions, unfolded
+
+  `chkInt` (the overflow check) is NOT in `rs_eval`: a proof either unfolds it (`simp [rs_eval, chkInt]`: the
+  check becomes a node `if lo ≤ v ∧ v ≤ hi` of the decision tree — the loop-free groups do this) or
+  discharges it with `chkInt_ok` (`Proofs/RsLoop.lean`: a conditional rewrite, for symbolic iterations). -/
+attribute [rs_eval] run runFuel evalIn defaultFuel Res.popTo St.popTo IntTy.card
+  wrapInt boolRes enumArity mkStruct List.lookup statusValue chronyValue
+  runMacro runCast runField Ctx.inputs allIntTys shiftInt St.input St.emit
 
 section
 variable {k kv kr : Value → St → Res}
@@ -36,15 +42,65 @@ variable {k kv kr : Value → St → Res}
 @[rs_eval] theorem Res.bind_orPanic {α} (o : Option α) (f : α → Res) :
     (orPanic o f).bind k = orPanic o fun a => (f a).bind k := by cases o <;> rfl
 
+@[rs_eval] theorem Res.bind_brk (v st) : (Res.brk v st).bind k = .brk v st := rfl
+@[rs_eval] theorem Res.bind_cont (st) : (Res.cont st).bind k = .cont st := rfl
+
 @[rs_eval] theorem Res.on_val (v st) : (Res.val v st).on kv kr = kv v st := rfl
 @[rs_eval] theorem Res.on_ret (v st) : (Res.ret v st).on kv kr = kr v st := rfl
 @[rs_eval] theorem Res.on_panic : Res.panic.on kv kr = .panic := rfl
 @[rs_eval] theorem Res.on_stuck (m) : (Res.stuck m).on kv kr = .stuck m := rfl
+@[rs_eval] theorem Res.on_brk (v st) : (Res.brk v st).on kv kr = .stuck "break outside of a loop" := rfl
+@[rs_eval] theorem Res.on_cont (st) : (Res.cont st).on kv kr = .stuck "continue outside of a loop" := rfl
 @[rs_eval] theorem Res.on_ite (c : Prop) [Decidable c] (a b : Res) :
     (if c then a else b).on kv kr = if c then a.on kv kr else b.on kv kr := by split <;> rfl
 @[rs_eval] theorem Res.on_orPanic {α} (o : Option α) (f : α → Res) :
     (orPanic o f).on kv kr = orPanic o fun a => (f a).on kv kr := by cases o <;> rfl
 end
+
+section
+variable {f : St → St} {next : St → Res}
+@[rs_eval] theorem Res.mapSt_val (v st) : (Res.val v st).mapSt f = .val v (f st) := rfl
+@[rs_eval] theorem Res.mapSt_ret (v st) : (Res.ret v st).mapSt f = .ret v (f st) := rfl
+@[rs_eval] theorem Res.mapSt_brk (v st) : (Res.brk v st).mapSt f = .brk v (f st) := rfl
+@[rs_eval] theorem Res.mapSt_cont (st) : (Res.cont st).mapSt f = .cont (f st) := rfl
+@[rs_eval] theorem Res.mapSt_panic : Res.panic.mapSt f = .panic := rfl
+@[rs_eval] theorem Res.mapSt_stuck (m) : (Res.stuck m).mapSt f = .stuck m := rfl
+@[rs_eval] theorem Res.mapSt_ite (c : Prop) [Decidable c] (a b : Res) :
+    (if c then a else b).mapSt f = if c then a.mapSt f else b.mapSt f := by split <;> rfl
+@[rs_eval] theorem Res.mapSt_orPanic {α} (o : Option α) (g : α → Res) :
+    (orPanic o g).mapSt f = orPanic o fun a => (g a).mapSt f := by cases o <;> rfl
+
+@[rs_eval] theorem Res.loopNext_val (v st) : (Res.val v st).loopNext next = next st := rfl
+@[rs_eval] theorem Res.loopNext_cont (st) : (Res.cont st).loopNext next = next st := rfl
+@[rs_eval] theorem Res.loopNext_brk (v st) : (Res.brk v st).loopNext next = .val v st := rfl
+@[rs_eval] theorem Res.loopNext_ret (v st) : (Res.ret v st).loopNext next = .ret v st := rfl
+@[rs_eval] theorem Res.loopNext_panic : Res.panic.loopNext next = .panic := rfl
+@[rs_eval] theorem Res.loopNext_stuck (m) : (Res.stuck m).loopNext next = .stuck m := rfl
+@[rs_eval] theorem Res.loopNext_ite (c : Prop) [Decidable c] (a b : Res) :
+    (if c then a else b).loopNext next = if c then a.loopNext next else b.loopNext next := by split <;> rfl
+@[rs_eval] theorem Res.loopNext_orPanic {α} (o : Option α) (g : α → Res) :
+    (orPanic o g).loopNext next = orPanic o fun a => (g a).loopNext next := by cases o <;> rfl
+end
+
+@[rs_eval] theorem firstRule_some (r b) : firstRule (some r) b = r := rfl
+@[rs_eval] theorem firstRule_none (b) : firstRule none b = b := rfl
+
+/-- without a fallback type nothing is retyped -/
+@[rs_eval] theorem litFallback_none (a b : Value) : litFallback none a b = (a, b) := by
+  unfold litFallback; split <;> simp_all
+@[rs_eval] theorem litFallback_some (t : IntTy) (x y : Int) :
+    litFallback (some t) (.int .infer x) (.int .infer y) = (.int t x, .int t y) := rfl
+
+/-! the empty dictionary -/
+@[rs_eval] theorem Ext.none_call (w n a st) : Ext.none.call w n a st = Option.none := rfl
+@[rs_eval] theorem Ext.none_method (w v n a st) : Ext.none.method w v n a st = Option.none := rfl
+@[rs_eval] theorem Ext.none_path (n) : Ext.none.path n = Option.none := rfl
+@[rs_eval] theorem Ext.none_macroCall (w n a st) : Ext.none.macroCall w n a st = Option.none := rfl
+@[rs_eval] theorem Ext.none_deref (w v st) : Ext.none.deref w v st = Option.none := rfl
+@[rs_eval] theorem Ext.none_fieldOf (v n) : Ext.none.fieldOf v n = Option.none := rfl
+@[rs_eval] theorem Ext.none_cast (w t v st) : Ext.none.cast w t v st = Option.none := rfl
+@[rs_eval] theorem Ext.none_litFallback : Ext.none.litFallback = Option.none := rfl
+@[rs_eval] theorem Ext.none_errFrom (r v) : Ext.none.errFrom r v = Option.none := rfl
 
 @[rs_eval] theorem orStuck_some {α} (m) (a : α) (k : α → Res) : orStuck m (some a) k = k a := rfl
 @[rs_eval] theorem orStuck_none {α} (m) (k : α → Res) : orStuck m none k = .stuck m := rfl
